@@ -1,254 +1,6 @@
 #!/venv/bin/python
-"""Generic mutant survey (exploration aid, not a verdict).
-
-Applies generic AST mutation operators to every function that at least one property analyses, runs the
-checks of those properties on a scratch copy (analysis only, nothing is executed) and records which
-rules fire.  Survivors are candidates for manual triage: either the mutant does not break the property
-(equivalent / out of scope) or a rule is missing.
-
-usage: tools/mutant_survey.py [--out survey.json] [--jobs 16] [--only C09,C07] [--limit N]
-"""
-import argparse
-import ast
-import copy
-import json
-import os
-import shutil
-import sys
-import tempfile
-import time
-from concurrent.futures import ProcessPoolExecutor
-
-HERE = os.path.dirname(os.path.dirname(os.path.abspath(__file__)))
-sys.path.insert(0, HERE)
-
-from gmsa.core import Repo, norm          # noqa: E402
-
-PROPS = ["C%02d" % i for i in range(1, 21)]
-SKIP_MODULES = ("gaddlemaps._represent", "gaddlemaps.__main__")
-
-CMP = {ast.Lt: ast.LtE, ast.LtE: ast.Lt, ast.Gt: ast.GtE, ast.GtE: ast.Gt, ast.Eq: ast.NotEq, ast.NotEq: ast.Eq,
-       ast.In: ast.NotIn, ast.NotIn: ast.In, ast.Is: ast.IsNot, ast.IsNot: ast.Is}
-BIN = {ast.Add: ast.Sub, ast.Sub: ast.Add, ast.Mult: ast.Div, ast.Div: ast.Mult, ast.FloorDiv: ast.Mult}
-
-
-def mutants_of(func_node):
-    """Yield (description, mutated copy of func_node)."""
-    nodes = list(ast.walk(func_node))
-    for i, n in enumerate(nodes):
-        def clone(edit):
-            c = copy.deepcopy(func_node)
-            m = list(ast.walk(c))[i]
-            return edit(m, c)
-        if isinstance(n, ast.Compare) and len(n.ops) == 1 and type(n.ops[0]) in CMP:
-            def e(m, c):
-                m.ops = [CMP[type(m.ops[0])]()]
-                return c
-            yield ("cmp %s -> %s @%d: %s" % (type(n.ops[0]).__name__, CMP[type(n.ops[0])].__name__, n.lineno, norm(n)[:60]), clone(e))
-        if isinstance(n, ast.BinOp) and type(n.op) in BIN and not isinstance(n.left, ast.Constant) or \
-                isinstance(n, ast.BinOp) and type(n.op) in BIN and isinstance(n.left, ast.Constant) and not isinstance(n.left.value, str):
-            def e(m, c):
-                m.op = BIN[type(m.op)]()
-                return c
-            yield ("binop %s -> %s @%d: %s" % (type(n.op).__name__, BIN[type(n.op)].__name__, n.lineno, norm(n)[:60]), clone(e))
-        if isinstance(n, ast.AugAssign) and type(n.op) in BIN:
-            def e(m, c):
-                m.op = BIN[type(m.op)]()
-                return c
-            yield ("augop %s -> %s @%d: %s" % (type(n.op).__name__, BIN[type(n.op)].__name__, n.lineno, norm(n)[:60]), clone(e))
-        if isinstance(n, ast.Constant) and isinstance(n.value, int) and not isinstance(n.value, bool):
-            def e(m, c):
-                m.value = m.value + 1
-                return c
-            yield ("const %d -> %d @%d" % (n.value, n.value + 1, n.lineno), clone(e))
-        if isinstance(n, (ast.If, ast.While)) and not isinstance(n.test, ast.Constant):
-            def e(m, c):
-                m.test = ast.UnaryOp(ast.Not(), m.test)
-                return c
-            yield ("negate test @%d: %s" % (n.lineno, norm(n.test)[:60]), clone(e))
-        if isinstance(n, ast.Call) and isinstance(n.func, ast.Attribute) and n.func.attr in ("copy", "deep_copy") and not n.args:
-            # x.copy() -> x   (needs parent rewrite: do it by replacing call's func/args so that it evaluates to x)
-            pass
-        if isinstance(n, ast.Call) and len(n.args) >= 2 and not any(isinstance(a, ast.Starred) for a in n.args[:2]) \
-                and norm(n.args[0]) != norm(n.args[1]):
-            def e(m, c):
-                m.args[0], m.args[1] = m.args[1], m.args[0]
-                return c
-            yield ("swap args @%d: %s" % (n.lineno, norm(n)[:60]), clone(e))
-        if isinstance(n, ast.Call) and isinstance(n.func, ast.Name) and n.func.id == "sorted" and n.args:
-            def e(m, c):
-                m.func.id = "list"
-                m.keywords = []
-                return c
-            yield ("sorted -> list @%d: %s" % (n.lineno, norm(n)[:60]), clone(e))
-    # statement deletion and .copy() removal need parents
-    class Del(ast.NodeTransformer):
-        def __init__(self, target_idx):
-            self.k = -1
-            self.t = target_idx
-            self.done = None
-
-        def generic_visit(self, node):
-            for field, old in ast.iter_fields(node):
-                if isinstance(old, list) and old and isinstance(old[0], ast.stmt):
-                    new = []
-                    for st in old:
-                        if isinstance(st, (ast.Expr, ast.Assign, ast.AugAssign)) and not (isinstance(st, ast.Expr) and isinstance(st.value, ast.Constant)):
-                            self.k += 1
-                            if self.k == self.t:
-                                self.done = "delete @%d: %s" % (st.lineno, norm(st)[:70])
-                                new.append(ast.copy_location(ast.Pass(), st))
-                                continue
-                        new.append(self.visit(st) if True else st)
-                    setattr(node, field, new)
-                elif isinstance(old, ast.AST):
-                    setattr(node, field, self.visit(old))
-                elif isinstance(old, list):
-                    setattr(node, field, [self.visit(x) if isinstance(x, ast.AST) else x for x in old])
-            return node
-    n_del = sum(1 for x in ast.walk(func_node) if isinstance(x, (ast.Expr, ast.Assign, ast.AugAssign))
-                and not (isinstance(x, ast.Expr) and isinstance(x.value, ast.Constant)))
-    for t in range(n_del):
-        c = copy.deepcopy(func_node)
-        d = Del(t)
-        c = d.visit(c)
-        if d.done:
-            yield (d.done, c)
-
-    class Uncopy(ast.NodeTransformer):
-        def __init__(self, t):
-            self.k, self.t, self.done = -1, t, None
-
-        def visit_Call(self, node):
-            self.generic_visit(node)
-            if isinstance(node.func, ast.Attribute) and node.func.attr in ("copy", "deep_copy") and not node.args and not node.keywords:
-                self.k += 1
-                if self.k == self.t:
-                    self.done = "drop .%s() @%d: %s" % (node.func.attr, node.lineno, norm(node)[:60])
-                    return node.func.value
-            if isinstance(node.func, ast.Attribute) and norm(node.func) in ("np.copy", "numpy.copy") and len(node.args) == 1:
-                self.k += 1
-                if self.k == self.t:
-                    self.done = "drop np.copy @%d: %s" % (node.lineno, norm(node)[:60])
-                    return node.args[0]
-            return node
-    n_cp = sum(1 for x in ast.walk(func_node) if isinstance(x, ast.Call) and isinstance(x.func, ast.Attribute)
-               and (x.func.attr in ("copy", "deep_copy") and not x.args or norm(x.func) in ("np.copy", "numpy.copy")))
-    for t in range(n_cp):
-        c = copy.deepcopy(func_node)
-        u = Uncopy(t)
-        c = u.visit(c)
-        if u.done:
-            yield (u.done, c)
-
-
-def build_worklist(only=None):
-    repo = Repo("/repo")
-    # function -> properties that analyse it (from the evidence of a quick run)
-    f2p = {}
-    for p in PROPS:
-        if only and p not in only:
-            continue
-        ev = json.load(open(os.path.join(HERE, "evidence", p + ".json")))
-        for q in ev["coverage"].get("functions_analysed", []):
-            f2p.setdefault(q, set()).add(p)
-    # rules that scan the whole package make every function 'analysed': keep the targeted ones only
-    work = []
-    for q, f in repo.funcs.items():
-        if f.module.name in SKIP_MODULES or f.parent is not None:
-            continue
-        props = sorted(p for p in f2p.get(q, ()) if not (p in ("C18",) and len(f2p.get(q, ())) == 1))
-        targeted = sorted(p for p in props if p != "C18" or q.split(".")[-2] in ("Residue", "Molecule", "AtomGro", "Atom", "Alignment"))
-        if not targeted:
-            continue
-        work.append((q, f.module.path, f.node.lineno, f.node.end_lineno, targeted))
-    return work
-
-
-def run_one(job):
-    q, path, l0, l1, props, desc, new_src = job
-    os.environ.pop("GMSA_REPO", None)
-    from gmsa.__main__ import run_property
-    from gmsa.core import AnalysisError
-    import io, contextlib
-    tmp = tempfile.mkdtemp(prefix="gmsa-survey-")
-    try:
-        shutil.copytree("/repo/gaddlemaps", os.path.join(tmp, "gaddlemaps"), ignore=shutil.ignore_patterns("__pycache__", "data"))
-        rel = os.path.relpath(path, "/repo")
-        with open(os.path.join(tmp, rel), "w") as fh:
-            fh.write(new_src)
-        fired = {}
-        for p in props:
-            buf = io.StringIO()
-            try:
-                with contextlib.redirect_stdout(buf):
-                    code, ctx = run_property(p, "quick", root=tmp, write=False)
-                rules = sorted({o.rule for o in ctx.obligations if not o.ok and not o.undecided})
-            except AnalysisError as exc:
-                code, rules = 2, ["ANALYSIS-ERROR"]
-            except Exception as exc:
-                code, rules = 3, ["CRASH %r" % (exc,)]
-            if code:
-                fired[p] = {"exit": code, "rules": rules}
-        return {"function": q, "mutant": desc, "props": props, "fired": fired}
-    finally:
-        shutil.rmtree(tmp, ignore_errors=True)
-
-
-def main():
-    ap = argparse.ArgumentParser()
-    ap.add_argument("--out", default="survey.json")
-    ap.add_argument("--jobs", type=int, default=16)
-    ap.add_argument("--only", default="")
-    ap.add_argument("--limit", type=int, default=0)
-    a = ap.parse_args()
-    only = set(a.only.split(",")) if a.only else None
-    work = build_worklist(only)
-    jobs = []
-    for q, path, l0, l1, props in work:
-        src = open(path).read()
-        tree = ast.parse(src)
-        target = None
-        for n in ast.walk(tree):
-            if isinstance(n, (ast.FunctionDef,)) and n.lineno == l0 and n.end_lineno == l1:
-                target = n
-        if target is None:
-            continue
-        lines = src.splitlines(keepends=True)
-        indent = " " * target.col_offset
-        deco_start = min([d.lineno for d in target.decorator_list] + [target.lineno])
-        for desc, m in mutants_of(target):
-            try:
-                body = ast.unparse(ast.fix_missing_locations(m))
-            except Exception:
-                continue
-            new_fn = "".join(indent + ln + "\n" for ln in body.splitlines())
-            new_src = "".join(lines[:deco_start - 1]) + new_fn + "".join(lines[l1:])
-            try:
-                ast.parse(new_src)
-            except SyntaxError:
-                continue
-            jobs.append((q, path, l0, l1, props, desc, new_src))
-    if a.limit:
-        jobs = jobs[:a.limit]
-    print("functions:", len(work), "mutants:", len(jobs), flush=True)
-    t0 = time.time()
-    res = []
-    with ProcessPoolExecutor(max_workers=a.jobs) as ex:
-        for i, r in enumerate(ex.map(run_one, jobs, chunksize=4)):
-            res.append(r)
-            if (i + 1) % 200 == 0:
-                print(i + 1, "done", round(time.time() - t0), "s", flush=True)
-    killed = [r for r in res if r["fired"]]
-    surv = [r for r in res if not r["fired"]]
-    by_fn = {}
-    for r in surv:
-        by_fn.setdefault(r["function"], []).append(r["mutant"])
-    out = {"mutants": len(res), "flagged": len(killed), "survivors": len(surv), "wall_s": round(time.time() - t0, 1),
-           "survivors_by_function": by_fn, "flagged_detail": killed}
-    json.dump(out, open(a.out, "w"), indent=1)
-    print("mutants %d flagged %d survivors %d in %.0fs -> %s" % (len(res), len(killed), len(surv), time.time() - t0, a.out))
-
-
-if __name__ == "__main__":
-    main()
+"""Whole-package generic mutant survey (see gmsa/survey.py).  usage: tools/mutant_survey.py [--out f] [--jobs n] [--only C09,C07]"""
+import os, sys
+sys.path.insert(0, os.path.dirname(os.path.dirname(os.path.abspath(__file__))))
+from gmsa.survey import main
+main()
